@@ -127,10 +127,10 @@ func drawCase(t *rapid.T) Case {
 	avoidBr := rec.KnownSwitch(sigCollectionRetry) && rapid.Bool().Draw(t, "avoid-known-branchable")
 	avoidPs := rec.KnownSwitch(sigPubSubOff) && rapid.Bool().Draw(t, "avoid-known-pubsuboff")
 	if !avoidBr {
-		c.Branchable = rapid.IntRange(0, 3).Draw(t, "branchable") == 3
+		c.Branchable = rapid.IntRange(0, 3).Draw(t, "branchable") >= 2
 	}
 	if !avoidPs && c.Config == "rep" {
-		c.APubSubOff = rapid.IntRange(0, 5).Draw(t, "pubsuboff") == 5
+		c.APubSubOff = rapid.IntRange(0, 5).Draw(t, "pubsuboff") >= 4
 	}
 	hasRep := c.Config != "pubsub"
 	repSet := !hasRep
